@@ -2,22 +2,32 @@
 #include "messages.h"
 #include "trace.h"
 #include <stdlib.h>
+#include <string.h>
 #include <time.h>
 
 char *get_timestamp(const char *format, size_t max_length,
                     struct trace *trace) {
   time_t t = time(NULL);
   struct tm *tm = TNULL(localtime(&t), trace);
-  size_t max_size = max_length + 1;
+  /* strftime returns 0 both on overflow and for an empty result: a leading
+     sentinel character tells them apart */
+  size_t max_size = max_length + 2;
   char *timestamp = TNULL(malloc(max_size), trace);
+  char *sentinel_format = TNULL(malloc(strlen(format) + 2), trace);
 
-  if (!TNEG(strftime(timestamp, max_size, format, tm), trace)) {
+  if (ok(trace)) {
+    sentinel_format[0] = '.';
+    strcpy(sentinel_format + 1, format);
+  }
+  if (!TNEG(strftime(timestamp, max_size, sentinel_format, tm), trace)) {
     throw_static(messages.timestamp.overflow, trace);
   }
+  free(sentinel_format);
   if (!ok(trace)) {
     free(timestamp);
     return NULL;
   }
 
+  memmove(timestamp, timestamp + 1, strlen(timestamp));
   return timestamp;
 }
